@@ -1,4 +1,5 @@
 import Oracle.Driver
 import Oracle.C01
+import Oracle.C01Ext
 
-def main : IO Unit := Oracle.run (Oracle.c01Handlers)
+def main : IO Unit := Oracle.run (Oracle.c01Handlers ++ Oracle.c01ExtHandlers)
